@@ -69,6 +69,12 @@ POLSEL(after_guard) POLSEL(after_exit) POLSEL(after_action) POLSEL(after_entry)
 #define PH_BEFORE_EXIT   (HAS_GUARD ? 1 : 0)
 #define PH_BEFORE_ENTRY  (HAS_ACTION ? 3 : 2)
 
+#if ROW_SM_INTERNAL
+#define SREF fsm_t*      /* sm-internal rows pass the machine itself as source and target state */
+#else
+#define SREF stref_t
+#endif
+
 /* ---- callee contracts (behaviours are nondeterministic; any of them may throw) ---------- */
 
 _Bool is_exit_state_active(type_t t1, type_t owner, fsm_t* fsm)
@@ -78,7 +84,7 @@ __CPROVER_ensures(__CPROVER_return_value==g_exit_active)
 ;
 
 /* ROW::guard_call -- the user's guard */
-_Bool ROW_guard_call(type_t row, fsm_t* fsm, event_t evt, stref_t src, stref_t tgt, slist_t all)
+_Bool ROW_guard_call(type_t row, fsm_t* fsm, event_t evt, SREF src, SREF tgt, slist_t all)
 __CPROVER_requires(g_phase==0 && !g_exc)                                          /*@ob C02.guard-first-and-once */
 __CPROVER_requires(ROW_INTERNAL || fsm->m_states[g_region]==ORACLE_GUARD)         /*@ob C19.guard-observes-source */
 __CPROVER_requires(ROW_INTERNAL || !has_pseudo_exit(T1) || g_exit_active)         /*@ob C09.exit-point-row-only-while-active */
@@ -90,7 +96,7 @@ __CPROVER_ensures(g_phase == ((!g_exc && __CPROVER_return_value) ? 1 : 0))
 
 /* check_guard(): sibling static member of the row; its own unit proves it against this contract */
 _Bool check_guard(fsm_t* fsm, event_t evt)
-__CPROVER_requires(__CPROVER_is_fresh(fsm,sizeof(*fsm)) && 0<=g_region && g_region<NR_CAP && 0<=policy && policy<=3)
+__CPROVER_requires(__CPROVER_is_fresh(fsm,sizeof(*fsm)) && (ROW_INTERNAL || (0<=g_region && g_region<NR_CAP && 0<=policy && policy<=3)))
 __CPROVER_requires(g_phase==0 && !g_exc)                                          /*@ob C02.guard-first-and-once */
 __CPROVER_requires(ROW_INTERNAL || fsm->m_states[g_region]==ORACLE_GUARD)         /*@ob C19.guard-observes-source */
 __CPROVER_requires(ROW_INTERNAL || !has_pseudo_exit(T1) || g_exit_active)         /*@ob C09.exit-point-row-only-while-active */
@@ -110,7 +116,7 @@ __CPROVER_ensures(g_exc || (g_phase==2 && g_act[g_cur]==0))
 __CPROVER_ensures(!g_exc || (g_phase==__CPROVER_old(g_phase)))
 ;
 
-HandledEnum ROW_action_call(type_t row, fsm_t* fsm, event_t evt, stref_t src, stref_t tgt, slist_t all)
+HandledEnum ROW_action_call(type_t row, fsm_t* fsm, event_t evt, SREF src, SREF tgt, slist_t all)
 __CPROVER_requires(!g_exc)
 __CPROVER_requires(ROW_INTERNAL ? (g_phase==(HAS_GUARD?1:0)) : g_phase==2)        /*@ob C02.action-after-exit-before-entry */
 __CPROVER_requires(ROW_INTERNAL || fsm->m_states[g_region]==ORACLE_ACTION)        /*@ob C19.action-observes-policy-state */
